@@ -1073,6 +1073,10 @@ func ParseExecBlock(p *ParserZH, mainIndent int) *syntax.ExecBlock {
 			p.unsetStmtCompleteFlag()
 			if match, _ := p.tryConsume(TypeCatchErrorW); match {
 				execBlock.CatchBlock = append(execBlock.CatchBlock, ParseCatchErrorStmt(p))
+			} else {
+				// only further 拦截 blocks may follow a 拦截 block; anything else is malformed
+				// (not consuming a token here would make the enclosing item loop spin forever)
+				panic(p.getInvalidSyntaxPeek())
 			}
 		}
 	})
